@@ -36,6 +36,7 @@ class SpyControl:
         self.read_cap = None        # read() returns at most this many bytes although more are available
         self.buffered = False       # written data reaches the file only when it is closed (buffered file object) ...
         self.close_job = False      # ... and close() first waits for an executor job (an environment event)
+        self.close_value = None     # what close() returns (None = whatever the wrapped backend returns)
         self.close_delay = 0.0      # ... or for this long (virtual time passes only when nothing else can happen)
         self.wbuf = {}              # id(file) -> [chunks]
         self.op_job = None          # set of ops that first wait for an executor job (exists/is_file/is_dir/stat ...)
@@ -233,7 +234,8 @@ def make_spy(base, ctl):
             r = await super().close(file)
             ctl.open_files.pop(id(file), None)
             await _after(ctl, "close", self)
-            return r
+            # the API documents no return value for close(): a backend may return anything (a commit id, True, ...)
+            return ctl.close_value if (ctl.close_value is not None and ctl.armed) else r
 
         @ue
         async def rename(self, source, destination):
